@@ -400,6 +400,17 @@ func (r *replicateChannelManager) StartReadCollection(ctx context.Context, db *m
 	r.replicateCollections[info.ID] = barrier.CloseChan
 	r.collectionLock.Unlock()
 
+	// announce every channel of the collection at once: AddPartition sizes the drop barrier of a partition by the
+	// number of announced channels, and must not see the collection half announced while the channels are started
+	r.channelLock.Lock()
+	for _, sourceVChannel := range info.VirtualChannelNames {
+		sourcePChannel := funcutil.ToPhysicalChannel(sourceVChannel)
+		if r.getChannelMapKey(info.ID, sourcePChannel) == "" {
+			r.updateSourcePChannelMap(info.ID, sourcePChannel, "")
+		}
+	}
+	r.channelLock.Unlock()
+
 	var successChannels []string
 	var channelHandlers []*replicateChannelHandler
 	err = ForeachChannel(info.VirtualChannelNames, targetInfo.VChannels, func(sourceVChannel, targetVChannel string) error {
